@@ -123,7 +123,17 @@ func (ex *Exec) normInt(t types.Type, r *Term) Value {
 	}
 	ex.overflowSeen++
 	if bits == 64 {
-		ex.inconclusive("64-bit integer overflow is feasible; wrap-around not encoded")
+		// two's-complement wrap-around with constants beyond int64 (raw terms)
+		two64 := &Term{Op: "raw", Sort: SInt, str: "18446744073709551616", Lo: ivMin, Hi: ivMax}
+		two63 := &Term{Op: "raw", Sort: SInt, str: "9223372036854775808", Lo: ivMin, Hi: ivMax}
+		m := mk("mod", SInt, r, two64)
+		if signed {
+			w := mk("ite", SInt, mk("<=", SBool, two63, m), mk("-", SInt, m, two64), m)
+			w.Lo, w.Hi = ivMin, ivMax
+			return w
+		}
+		// unsigned 64-bit values above 2^63 are outside the encodable domain
+		ex.inconclusive("unsigned 64-bit overflow is feasible; not encoded")
 	}
 	m := TMod(r, TInt(1<<bits))
 	if signed {
